@@ -704,6 +704,7 @@ func checkC19(P *Program, r *Result, tier string) {
 					g = gg
 				} else {
 					detail = "callback call not guarded by its own nil test or arguments not passed through in order"
+					stray = "the return at " + P.pos(instrPos(ret)) + " answers with another callback's result, or without handing on the arguments in order"
 				}
 				continue
 			}
@@ -811,6 +812,38 @@ func checkC18(P *Program, r *Result, tier string) {
 		"NewProtocolExceptionWithErr returns the asserted *ProtocolException itself, otherwise a new protocol exception that stores the argument in the field Unwrap returns (WRAP). " +
 		"Is returns true only under type-id ∧ text equality and otherwise exactly errors.Is(wrapped, target) (IS)."
 	const rel = "protocol/thrift"
+	// the constructors keep the type id and the text they are given, and looking at an exception changes nothing
+	for _, n := range []string{"NewApplicationException", "NewTransportException", "NewProtocolException"} {
+		ctor := P.Func(rel, n)
+		if !r.require("thrift."+n, ctor != nil && len(ctor.Params) == 2) {
+			continue
+		}
+		r.Funcs[shortName(ctor)] = true
+		for fi, field := range []string{"t", "m"} {
+			vals := fieldInits(ctor, field, 0)
+			ok := len(vals) > 0
+			for _, v := range vals {
+				if v != ssa.Value(ctor.Params[fi]) {
+					ok = false
+				}
+			}
+			r.add("PREPEND", shortName(ctor), "ctor", "the constructor stores its argument "+ctor.Params[fi].Name()+" unchanged in field "+field, P.pos(ctor.Pos()), ok, "")
+		}
+	}
+	for _, m := range []struct{ typ, name string }{{"ApplicationException", "Error"}, {"ApplicationException", "Msg"}, {"ApplicationException", "TypeId"}, {"ApplicationException", "TypeID"}, {"ApplicationException", "String"}, {"ProtocolException", "Unwrap"}, {"ProtocolException", "Is"}} {
+		mf := P.Method(rel, m.typ, m.name)
+		if mf == nil {
+			continue
+		}
+		r.Funcs[shortName(mf)] = true
+		bad := ""
+		for _, e := range globalEffects.of(mf) {
+			if strings.HasPrefix(e.Key, "P:") || strings.HasPrefix(e.Key, "G:") || strings.HasPrefix(e.Key, "?") {
+				bad = "writes " + e.Key + " at " + P.pos(instrPos(e.In))
+			}
+		}
+		r.add("IS", shortName(mf), "pure", "looking at an exception (its text, type id, cause, a comparison) changes nothing", P.pos(mf.Pos()), bad == "", bad)
+	}
 	fn := P.Func(rel, "PrependError")
 	if r.require("thrift.PrependError", fn != nil) {
 		prepend, errp := ssa.Value(fn.Params[0]), ssa.Value(fn.Params[1])
